@@ -53,7 +53,10 @@ template <class T> struct TI<std::vector<T>> {
     static const int depth = 1 + TI<T>::depth;
     static std::string desc() { return "{\"k\":\"vec\",\"t\":" + TI<T>::desc() + "}"; }
     static std::string json(const std::vector<T> &v) { std::string s = "["; for (size_t i = 0; i < v.size(); ++i) { if (i) s += ","; s += TI<T>::json(v[i]); } return s + "]"; }
-    static std::vector<T> gen() { std::vector<T> v; size_t n = (sizeof(T) <= 2 && rnd(15) == 0) ? 255 + rnd(3) : rlen(); for (size_t i = 0; i < n; ++i) v.push_back(TI<T>::gen()); return v; } };
+    static std::vector<T> gen() { std::vector<T> v; size_t n = (sizeof(T) <= 2 && rnd(15) == 0) ? 255 + rnd(3) : rlen();
+        // "big" calls: a vector of scalars wider than a byte whose elements take 64 KiB and more (the count still fits the 16-bit field)
+        if constexpr (std::is_arithmetic_v<T> && sizeof(T) >= 2) { if (g_big > 0) { size_t q = 65536 / sizeof(T); const size_t B[] = {q, q + 1, 2 * q - 1, q + 1000}; n = B[rnd(4)]; --g_big; } }
+        for (size_t i = 0; i < n; ++i) v.push_back(TI<T>::gen()); return v; } };
 template <class A, class B> struct TI<std::pair<A, B>> {
     static const int depth = TI<A>::depth > TI<B>::depth ? TI<A>::depth : TI<B>::depth;
     static std::string desc() { return "{\"k\":\"pair\",\"a\":" + TI<A>::desc() + ",\"b\":" + TI<B>::desc() + "}"; }
